@@ -17,7 +17,6 @@
 #define MAXTRAV 3
 #define MAXRLOOK 10
 #define WALK_STEP_LIMIT 8192
-#define LIN_BUDGET 2000000ULL
 
 enum { X_ADD, X_ADDU, X_ADDR, X_REPLACE, X_DEL, X_LOOKUP, X_WALK, X_NR };
 static const char *const x_names[X_NR] = { "add", "add_unique", "add_replace", "replace", "del", "lookup", "walk" };
@@ -867,18 +866,11 @@ struct keyhist {
 	const struct rec *src[LIN_MAX_OPS];
 };
 
-static void m_init(void *st, void *ctx)
+/* o->a new lid, o->b old lid (or FINAL mask), o->r node result, o->r2 return code (as uint64); s0 = present set */
+static int m_apply(struct plin_state *st, const struct lin_op *o)
 {
-	(void) ctx;
-	*(uint64_t *) st = 0;
-}
+	uint64_t *s = &st->s0, bn = 1ULL << (o->a & 63), bo = 1ULL << (o->b & 63), br = 1ULL << (o->r & 63);
 
-/* o->a new lid, o->b old lid (or FINAL mask), o->r node result, o->r2 return code (as uint64) */
-static int m_apply(void *st, const struct lin_op *o, void *ctx)
-{
-	uint64_t *s = st, bn = 1ULL << (o->a & 63), bo = 1ULL << (o->b & 63), br = 1ULL << (o->r & 63);
-
-	(void) ctx;
 	switch (o->kind) {
 	case K_ADD:
 		*s |= bn;
@@ -974,12 +966,9 @@ static void m_print(FILE *f, const struct lin_op *o, void *ctx)
 	}
 }
 
+/* only for lin_dump() */
 static const struct lin_model ht_model = {
 	.name = "multiset-of-node-ids-for-one-key",
-	.state_size = sizeof(uint64_t),
-	.init = m_init,
-	.apply = m_apply,
-	.hash = NULL,
 	.print_op = m_print,
 };
 
@@ -990,101 +979,72 @@ static const struct lin_model ht_model = {
  * (inserted by plain add, or replacing a tail node).  A successful add_unique / add_replace-NULL then
  * only requires that no HEAD-lineage node is present.
  */
-struct rstate {
-	uint64_t present, head;
-};
-
-static void r_init(void *st, void *ctx)
+static int r_apply(struct plin_state *st, const struct lin_op *o)
 {
-	(void) ctx;
-	memset(st, 0, sizeof(struct rstate));
-}
-
-static int r_apply(void *st, const struct lin_op *o, void *ctx)
-{
-	struct rstate *s = st;
+	uint64_t *present = &st->s0, *head = &st->s1;
 	uint64_t bn = 1ULL << (o->a & 63), bo = 1ULL << (o->b & 63), br = 1ULL << (o->r & 63);
 
-	(void) ctx;
 	switch (o->kind) {
-	case K_ADD:
-		s->present |= bn;
-		return 1;
 	case K_ADDU:
 		if (o->r == o->a) {
-			if (s->present & s->head)
+			if (*present & *head)
 				return 0;
-			s->present |= bn;
-			s->head |= bn;
+			*present |= bn;
+			*head |= bn;
 			return 1;
 		}
-		return (s->present & br) != 0;
+		return (*present & br) != 0;
 	case K_ADDR:
 		if (o->r == 0) {
-			if (s->present & s->head)
+			if (*present & *head)
 				return 0;
-			s->present |= bn;
-			s->head |= bn;
+			*present |= bn;
+			*head |= bn;
 			return 1;
 		}
-		if (!(s->present & br))
+		if (!(*present & br))
 			return 0;
-		s->present = (s->present & ~br) | bn;
-		if (s->head & br)
-			s->head |= bn;
+		*present = (*present & ~br) | bn;
+		if (*head & br)
+			*head |= bn;
 		return 1;
 	case K_REPL:
 		if (o->r2 == 0) {
-			if (!(s->present & bo))
+			if (!(*present & bo))
 				return 0;
-			s->present = (s->present & ~bo) | bn;
-			if (s->head & bo)
-				s->head |= bn;
+			*present = (*present & ~bo) | bn;
+			if (*head & bo)
+				*head |= bn;
 			return 1;
 		}
-		return !(s->present & bo);
-	case K_DEL:
-		if (o->r2 == 0) {
-			if (!(s->present & bo))
-				return 0;
-			s->present &= ~bo;
-			return 1;
-		}
-		return !(s->present & bo);
-	case K_LOOK:
-	case K_WALK:
-		if (o->r == 0)
-			return s->present == 0;
-		return (s->present & br) != 0;
-	case K_FINAL:
-		return s->present == o->b;
+		return !(*present & bo);
+	default:
+		/* everything else exactly as in the strict model (s1 untouched) */
+		return m_apply(st, o);
 	}
-	return 0;
 }
-
-static const struct lin_model ht_model_relaxed = {
-	.name = "multiset-with-head/tail-lineage (classification only)",
-	.state_size = sizeof(struct rstate),
-	.init = r_init,
-	.apply = r_apply,
-	.hash = NULL,
-	.print_op = m_print,
-};
 
 /* model starts from the prefilled nodes: expressed as add operations that precede everything */
 static void build_keyhist(const struct episode *e, int k, struct keyhist *kh)
 {
+	uint64_t first = UINT64_MAX;
+
+	for (int th = 0; th < e->nthr; th++)
+		if (e->nrec[th] && e->recs[th][0].call < first)
+			first = e->recs[th][0].call;
+	if (first == UINT64_MAX || first < 4)
+		first = e->final_call;
 	kh->n = 0;
 	for (int lid = 1; lid <= e->nn; lid++) {
 		if (!e->nodes[lid].prefilled || e->nodes[lid].kidx != k)
 			continue;
 		struct lin_op *o = &kh->ops[kh->n];
 		memset(o, 0, sizeof(*o));
-		o->thread = 15;
+		o->thread = PLIN_T_INIT;
 		o->kind = K_ADD;
 		o->a = (uint64_t) lid;
-		o->call = 0;
-		o->ret = 1;
+		o->call = first - 2;	/* before the start barrier (PLIN_T_INIT precedes everything) */
+		o->ret = first - 1;
 		kh->src[kh->n++] = NULL;
 	}
 	for (int th = 0; th < e->nthr; th++)
@@ -1108,7 +1068,7 @@ static void build_keyhist(const struct episode *e, int k, struct keyhist *kh)
 		}
 	struct lin_op *o = &kh->ops[kh->n];
 	memset(o, 0, sizeof(*o));
-	o->thread = 14;
+	o->thread = PLIN_T_FINAL;
 	o->kind = K_FINAL;
 	o->b = e->final_mask[k];
 	o->call = e->final_call;
@@ -1339,10 +1299,10 @@ static void check_episode(struct wthr *w, struct episode *e)
 
 	/* ---- linearizability per key */
 	for (int k = 0; k < e->nk; k++) {
-		struct lin_result res;
+		struct { int verdict; uint64_t nodes; int max_concurrency; } res;
 		build_keyhist(e, k, &kh);
 		memset(&res, 0, sizeof(res));
-		lin_check(&ht_model, kh.src, kh.ops, kh.n, eps_m ? eps_m : (1ULL << 40), LIN_BUDGET, &res);
+		res.verdict = plin_check(m_apply, kh.ops, kh.n, eps_m ? eps_m : (1ULL << 40), &res.nodes, &res.max_concurrency);
 		w->keys_checked++;
 		w->lin_nodes += res.nodes;
 		if (res.nodes > w->max_lin_nodes)
@@ -1351,7 +1311,7 @@ static void check_episode(struct wthr *w, struct episode *e)
 			w->max_conc = (uint64_t) res.max_concurrency;
 		if (res.verdict == LIN_INCONCLUSIVE) {
 			w->inconclusive++;
-			vp_inconclusive("linearizability search exceeded its budget of 2e6 nodes on some per-key histories (counted in lin_inconclusive)");
+			vp_inconclusive("linearizability search exceeded its budget of 65536 states on some per-key histories (counted in lin_inconclusive)");
 		} else if (res.verdict == LIN_VIOLATION) {
 			char path[400] = "", hist[1500];
 			int mixed = 0, known_anomaly = 0;
@@ -1360,10 +1320,7 @@ static void check_episode(struct wthr *w, struct episode *e)
 				if (kh.ops[i].kind == K_ADD)
 					mixed = 1;
 			if (mixed && !e->unique) {
-				struct lin_result r2;
-				memset(&r2, 0, sizeof(r2));
-				lin_check(&ht_model_relaxed, kh.src, kh.ops, kh.n, eps_m ? eps_m : (1ULL << 40), LIN_BUDGET, &r2);
-				known_anomaly = r2.verdict == LIN_OK;
+				known_anomaly = plin_check(r_apply, kh.ops, kh.n, eps_m ? eps_m : (1ULL << 40), NULL, NULL) == LIN_OK;
 			}
 			FILE *f = vp_witness_open("lfht-lin", path, sizeof(path));
 			if (f) {
@@ -1413,16 +1370,18 @@ static void check_episode(struct wthr *w, struct episode *e)
 					any = 1;
 				}
 			if (any) {
-				char sig[230];
-				size_t off = 0;
+				char sig[120];
+				const char *cb = res.max_concurrency <= 2 ? "<=2" : res.max_concurrency <= 4 ? "3-4" : "5+";
 				nontrivial = 1;
-				off += (size_t) snprintf(sig + off, sizeof(sig) - off, "%s:%s:", e->unique ? "uniq" : "any",
-							 resized ? "explicit-resize" : size_changed ? "size-changed" : "stable");
+				/* one signature per overlapping (operation,result) class pair: bounded by construction */
 				for (int a = 0; a < C_NR; a++)
 					for (int b = a; b < C_NR; b++)
-						if (seen[a][b] && off + 14 < sizeof(sig))
-							off += (size_t) snprintf(sig + off, sizeof(sig) - off, "%s|%s,", c_names[a], c_names[b]);
-				sig_add_bounded(sig);
+						if (seen[a][b]) {
+							snprintf(sig, sizeof(sig), "ep:%s:%s:conc=%s:%s|%s", e->unique ? "uniq" : "any",
+								 resized ? "explicit-resize" : size_changed ? "size-changed" : "stable", cb,
+								 c_names[a], c_names[b]);
+							sig_add_bounded(sig);
+						}
 			}
 		}
 	}
@@ -1458,8 +1417,12 @@ static void check_episode(struct wthr *w, struct episode *e)
 	if (!eps_m) {
 		vp_inconclusive("tsc-calibration-failed: walk / traversal interval oracles skipped, value oracles decided");
 	} else {
-#define PRESENT_WHOLE(x, a, b) (nd[x].inserted && nd[x].ins_ret + eps_m < (a) && (!nd[x].removed || nd[x].rem_call > (b) + eps_m))
-#define ABSENT_WHOLE(x, a, b) (!nd[x].inserted || nd[x].ins_call > (b) + eps_m || (nd[x].removed && nd[x].rem_ret + eps_m < (a)))
+/* margin: none between operations of one thread (program order, same clock), eps otherwise */
+#define MARG(t1, t2) ((t1) == (t2) ? 0 : eps_m)
+#define PRESENT_WHOLE(x, a, b, t) (nd[x].inserted && nd[x].ins_ret + MARG(nd[x].ins_thr, t) < (a) && \
+				   (!nd[x].removed || nd[x].rem_call > (b) + MARG(nd[x].rem_thr, t)))
+#define ABSENT_WHOLE(x, a, b, t) (!nd[x].inserted || nd[x].ins_call > (b) + MARG(nd[x].ins_thr, t) || \
+				  (nd[x].removed && nd[x].rem_ret + MARG(nd[x].rem_thr, t) < (a)))
 		for (int th = 0; th < e->nthr; th++)
 			for (int i = 0; i < e->nrec[th]; i++) {
 				const struct rec *r = &e->recs[th][i];
@@ -1475,17 +1438,17 @@ static void check_episode(struct wthr *w, struct episode *e)
 						return;
 					}
 					got |= 1ULL << x;
-					if (ABSENT_WHOLE(x, r->call, r->ret)) {
+					if (ABSENT_WHOLE(x, r->call, r->ret, th)) {
 						ep_violation(e, r->kidx, "lfht:walk:returned-absent-node",
 							     "lookup+next_duplicate walk of T%d for key k%d returned node n%d which was not in the table at any time of the walk (%s)",
-							     th, r->kidx, x, !nd[x].inserted ? "never inserted" : nd[x].removed && nd[x].rem_ret + eps_m < r->call ? "its removal had returned before the walk began" : "its insertion was called after the walk had returned");
+							     th, r->kidx, x, !nd[x].inserted ? "never inserted" : nd[x].removed && nd[x].rem_ret <= r->call ? "its removal had returned before the walk began" : "its insertion was called after the walk had returned");
 						return;
 					}
 				}
 				if (r->overflow)
 					continue;
 				for (int x = 1; x <= e->nn; x++)
-					if (e->nodes[x].kidx == r->kidx && !(got & (1ULL << x)) && PRESENT_WHOLE(x, r->call, r->ret)) {
+					if (e->nodes[x].kidx == r->kidx && !(got & (1ULL << x)) && PRESENT_WHOLE(x, r->call, r->ret, th)) {
 						ep_violation(e, r->kidx, "lfht:walk:missed-resident-node",
 							     "lookup+next_duplicate walk of T%d for key k%d did not return node n%d, which was in the table during the whole walk (inserted before it began, not removed until after it returned)",
 							     th, r->kidx, x);
@@ -1501,13 +1464,13 @@ static void check_episode(struct wthr *w, struct episode *e)
 			}
 			for (int x = 1; x <= e->nn; x++) {
 				int seen = (t->hotmask >> x) & 1;
-				if (seen && ABSENT_WHOLE(x, t->call, t->ret)) {
+				if (seen && ABSENT_WHOLE(x, t->call, t->ret, 100)) {
 					ep_violation(e, e->nodes[x].kidx, "lfht:traverse:visited-absent-node",
 						     "first/next traversal #%d visited node n%d (key k%d) which was not in the table at any time of the traversal (%s)",
-						     i, x, e->nodes[x].kidx, !nd[x].inserted ? "never inserted" : nd[x].removed && nd[x].rem_ret + eps_m < t->call ? "its removal had returned before the traversal began" : "its insertion was called after the traversal had returned");
+						     i, x, e->nodes[x].kidx, !nd[x].inserted ? "never inserted" : nd[x].removed && nd[x].rem_ret <= t->call ? "its removal had returned before the traversal began" : "its insertion was called after the traversal had returned");
 					return;
 				}
-				if (!seen && PRESENT_WHOLE(x, t->call, t->ret)) {
+				if (!seen && PRESENT_WHOLE(x, t->call, t->ret, 100)) {
 					ep_violation(e, e->nodes[x].kidx, "lfht:traverse:missed-resident-node",
 						     "first/next traversal #%d did not visit node n%d (key k%d), which was in the table during the whole traversal",
 						     i, x, e->nodes[x].kidx);
@@ -1515,6 +1478,7 @@ static void check_episode(struct wthr *w, struct episode *e)
 				}
 			}
 		}
+#undef MARG
 #undef PRESENT_WHOLE
 #undef ABSENT_WHOLE
 	}
@@ -1619,6 +1583,8 @@ static int ep_confirm_stuck(char *buf, size_t len)
 			return 1;
 		}
 	}
+	if (resizer_confirm_stuck(buf, len))
+		return 1;
 	snprintf(buf, len, "hang:lfht-episodes:unconfirmed (no worker inside an operation)");
 	return 0;
 }
@@ -1634,7 +1600,7 @@ static int run_episodes(void)
 	opt_gen_len = vp_arg_long("gen-len", opt_resize == RZ_ACCT ? 500 : opt_resize == RZ_AUTO ? 250 : 400);
 	opt_seconds = vp_arg_double("seconds", 1e9);
 	t_start_ns = vp_now_ns();
-	vp_lib_thread_slot_base(nworkers + 1);
+	vp_lib_thread_slot_base(opt_resize == RZ_EXPLICIT ? nworkers + 2 : nworkers + 1);
 	vp_barrier_init(&ep_bar, nworkers + 1);
 	for (int i = 0; i <= nworkers; i++) {
 		wthr[i].idx = i;
@@ -1709,5 +1675,201 @@ static int run_episodes(void)
 	vp_note("cfg=%s mode=episodes discipline=%s resize=%s workers=%d episodes=%llu nontrivial=%llu lin_inconclusive=%llu eps=%llu",
 		cfgname, opt_unique ? "unique" : "any", rz_names[opt_resize], nworkers, (unsigned long long) checked,
 		(unsigned long long) nt, (unsigned long long) inc, (unsigned long long) vp_eps);
+	return vp_finish();
+}
+
+
+/* ------------------------------------------------------------------ --mode=finding-addu
+ * Drives, on purpose, the interleaving behind the known finding "add_unique / add_replace versus plain add
+ * of the same key" (see /verif/findings/c05_addu_dup.c): T1 is parked inside its duplicate scan (in the
+ * match callback invoked on the LAST node of the equal-hash run, whose next pointer the library has
+ * already loaded) while the main thread runs add_unique(n7) -> n7, add(n4), lookup, del(n7) -> 0.  The
+ * recorded history goes through the same strict / relaxed model classification as any episode.
+ */
+static struct hnode *fa_park_node;
+static int fa_parked, fa_go;
+static __thread int fa_is_t1;
+static struct {
+	struct cds_lfht *ht;
+	struct hnode *node;
+	int use_add_replace;
+	struct cds_lfht_node *ret;
+	uint64_t call, rets;
+} fa;
+
+static int fa_match(struct cds_lfht_node *node, const void *key)
+{
+	struct hnode *h = caa_container_of(node, struct hnode, n);
+	if (fa_is_t1 && h == fa_park_node && !__atomic_load_n(&fa_parked, __ATOMIC_ACQUIRE)) {
+		__atomic_store_n(&fa_parked, 1, __ATOMIC_RELEASE);
+		while (!__atomic_load_n(&fa_go, __ATOMIC_ACQUIRE))
+			sched_yield();
+	}
+	return match_fn(node, key);
+}
+
+static void *fa_t1(void *arg)
+{
+	(void) arg;
+	vp_pin(1);
+	fa_is_t1 = 1;
+	rcu_register_thread();
+	rcu_read_lock();
+	fa.call = ts_before();
+	if (fa.use_add_replace)
+		fa.ret = cds_lfht_add_replace(fa.ht, fa.node->hash, fa_match, &fa.node->key, &fa.node->n);
+	else
+		fa.ret = cds_lfht_add_unique(fa.ht, fa.node->hash, fa_match, &fa.node->key, &fa.node->n);
+	fa.rets = ts_after();
+	rcu_read_unlock();
+	rcu_unregister_thread();
+	return NULL;
+}
+
+static int run_finding_addu(void)
+{
+	struct vp_rng r;
+	uint64_t evals = 0, reproduced = 0;
+
+	vp_pin(0);
+	rcu_register_thread();
+	vp_rng_init(&r, vp_opt.seed, 0xfa, 0);
+	for (int rep = 0; rep < 8; rep++) {
+		struct cds_lfht *ht;
+		struct hnode *R1, *n4, *n6, *n7, *all[4];
+		struct lin_op ops[8];
+		int verdict, verdict2 = LIN_OK;
+		struct cds_lfht_iter it;
+		struct cds_lfht_node *ret;
+		uint64_t keyval, mask = 0;
+		unsigned long hash;
+		pthread_t t1;
+		int n = 0, rc;
+		/* T0's operations are spaced by more than the comparison margin, so that it cannot blur their order */
+		uint64_t gapc = 3 * (vp_eps ? vp_eps : 3000);
+
+		opt_mm = rep & 3;
+		ht = table_new(&r);
+		hash = g_fam.h0;
+		keyval = new_keyval();
+		R1 = node_new(ND_RES, new_keyval(), hash, -1, 0, 0);
+		n4 = node_new(ND_HOT, keyval, hash, 0, 4, 1);
+		n6 = node_new(ND_HOT, keyval, hash, 0, 6, 1);
+		n7 = node_new(ND_HOT, keyval, hash, 0, 7, 1);
+		all[0] = R1; all[1] = n4; all[2] = n6; all[3] = n7;
+		rcu_read_lock();
+		cds_lfht_add(ht, hash, &R1->n);
+		rcu_read_unlock();
+		fa_park_node = R1;
+		__atomic_store_n(&fa_parked, 0, __ATOMIC_SEQ_CST);
+		__atomic_store_n(&fa_go, 0, __ATOMIC_SEQ_CST);
+		fa.ht = ht;
+		fa.node = n6;
+		fa.use_add_replace = rep >= 4;
+		memset(ops, 0, sizeof(ops));
+		pthread_create(&t1, NULL, fa_t1, NULL);
+		while (!__atomic_load_n(&fa_parked, __ATOMIC_ACQUIRE))
+			sched_yield();
+		rcu_read_lock();
+		/* #0 add_unique(n7) */
+		ops[n].kind = K_ADDU; ops[n].a = 7; ops[n].call = ts_before();
+		ret = cds_lfht_add_unique(ht, hash, match_fn, &keyval, &n7->n);
+		ops[n].ret = ts_after(); ops[n].r = ret == &n7->n ? 7 : ret == &n4->n ? 4 : 6; n++;
+		vp_spin_cycles(gapc);
+		/* #1 add(n4) */
+		ops[n].kind = K_ADD; ops[n].a = 4; ops[n].call = ts_before();
+		cds_lfht_add(ht, hash, &n4->n);
+		ops[n].ret = ts_after(); n++;
+		vp_spin_cycles(gapc);
+		/* #2 lookup */
+		ops[n].kind = K_LOOK; ops[n].call = ts_before();
+		cds_lfht_lookup(ht, hash, match_fn, &keyval, &it);
+		ops[n].ret = ts_after();
+		ret = cds_lfht_iter_get_node(&it);
+		ops[n].r = ret == &n7->n ? 7 : ret == &n4->n ? 4 : ret == &n6->n ? 6 : 0; n++;
+		vp_spin_cycles(gapc);
+		/* #3 del(n7) */
+		ops[n].kind = K_DEL; ops[n].b = 7; ops[n].call = ts_before();
+		rc = cds_lfht_del(ht, &n7->n);
+		ops[n].ret = ts_after(); ops[n].r2 = (uint64_t) (int64_t) rc; n++;
+		rcu_read_unlock();
+		vp_spin_cycles(gapc);
+		__atomic_store_n(&fa_go, 1, __ATOMIC_SEQ_CST);
+		pthread_join(t1, NULL);
+		/* #4 the parked call */
+		ops[n].thread = 1; ops[n].kind = fa.use_add_replace ? K_ADDR : K_ADDU; ops[n].a = 6;
+		ops[n].call = fa.call; ops[n].ret = fa.rets;
+		if (fa.use_add_replace)
+			ops[n].r = fa.ret == NULL ? 0 : fa.ret == &n4->n ? 4 : 7;
+		else
+			ops[n].r = fa.ret == &n6->n ? 6 : fa.ret == &n4->n ? 4 : 7;
+		n++;
+		vp_spin_cycles(gapc);
+		/* #5 content at quiescence */
+		ops[n].thread = PLIN_T_FINAL; ops[n].kind = K_FINAL; ops[n].call = ts_before();
+		rcu_read_lock();
+		cds_lfht_lookup(ht, hash, match_fn, &keyval, &it);
+		while ((ret = cds_lfht_iter_get_node(&it)) != NULL) {
+			mask |= 1ULL << caa_container_of(ret, struct hnode, n)->lid;
+			cds_lfht_next_duplicate(ht, match_fn, &keyval, &it);
+		}
+		rcu_read_unlock();
+		ops[n].ret = ts_after(); ops[n].b = mask; n++;
+
+		evals++;
+		verdict = plin_check(m_apply, ops, n, vp_eps ? vp_eps : 1, NULL, NULL);
+		if (verdict == LIN_VIOLATION) {
+			char path[400] = "", buf[1200];
+			FILE *f;
+			verdict2 = plin_check(r_apply, ops, n, vp_eps ? vp_eps : 1, NULL, NULL);
+			f = vp_witness_open("lfht-finding-addu", path, sizeof(path));
+			if (f) {
+				fprintf(f, "table={%s} hash 0x%lx; resident R1 (another key, same hash) inserted first; T1's %s(n6) was parked inside its duplicate scan (match() on R1, the last node of the equal-hash run) while T0 ran the other operations\n",
+					g_ctx, hash, fa.use_add_replace ? "add_replace" : "add_unique");
+				lin_dump(f, &ht_model, NULL, ops, n);
+				fclose(f);
+			}
+			f = fmemopen(buf, sizeof(buf), "w");
+			if (f) {
+				lin_dump(f, &ht_model, NULL, ops, n);
+				fclose(f);
+			}
+			buf[sizeof(buf) - 1] = 0;
+			for (char *c = buf; *c; c++)
+				if (*c == '\n')
+					*c = ';';
+			if (verdict2 == LIN_OK) {
+				reproduced++;
+				vp_violation("lfht:not-linearizable:add_unique-vs-plain-add-same-key",
+					     "cfg=%s flavor=%s table={%s}: DRIVEN interleaving (T1's %s(n6) parked inside its duplicate scan, past the tail of the equal-hash run, while T0 ran add_unique(n7) -> n7, add(n4), del(n7) -> 0): %s inserted although the key was present at every instant it could have taken effect (n7, then n7+n4, then n4, the latter inserted with plain cds_lfht_add at the tail of the run); witness=%s %s",
+					     cfgname, VP_FLAVOR_NAME, g_ctx, fa.use_add_replace ? "add_replace" : "add_unique",
+					     fa.use_add_replace ? "add_replace" : "add_unique", path, buf);
+			} else
+				vp_violation("lfht:not-linearizable", "cfg=%s flavor=%s table={%s}: driven add_unique-vs-add interleaving gave a history that neither the strict nor the relaxed model accepts; witness=%s %s",
+					     cfgname, VP_FLAVOR_NAME, g_ctx, path, buf);
+		}
+		vp_sig_add("finding-addu:%s:%s:%s", fa.use_add_replace ? "add_replace" : "add_unique", mm_names[g_tc.mm],
+			   verdict == LIN_VIOLATION ? "anomaly" : "linearizable");
+		/* clean up */
+		rcu_read_lock();
+		for (int i = 0; i < 4; i++)
+			(void) cds_lfht_del(ht, &all[i]->n);
+		rcu_read_unlock();
+		synchronize_rcu();
+		for (int i = 0; i < 4; i++)
+			node_reclaim(all[i]);
+		table_destroy();
+	}
+	rcu_unregister_thread();
+#if !(VP_ASAN || VP_TSAN)
+	vp_quar_drain(&quar);
+#endif
+	vp_counter_add("evaluations", evals);
+	vp_counter_add("nontrivial", evals);
+	vp_counter_add("driven_interleavings", evals);
+	vp_counter_add("anomaly_add_unique_vs_plain_add", reproduced);
+	common_counters();
+	vp_note("cfg=%s mode=finding-addu: %llu driven interleavings, anomaly reproduced %llu times", cfgname,
+		(unsigned long long) evals, (unsigned long long) reproduced);
 	return vp_finish();
 }
